@@ -75,7 +75,8 @@ def content(rng, kind, n, bits):
 def split(rng, n):
     out, left = [], n
     while left > 0:
-        k = min(left, rng.choice([1, 2, 7, 100, 1000, 4095, 4096, 4097, left, left]))
+        # call boundaries at every fill level of the 4096-frame staging buffer (nearly empty, a quarter, just past half, three quarters, full +- 1)
+        k = min(left, rng.choice([1, 2, 7, 100, 1000, FPB // 2 + 1, 3000, 4095, 4096, 4097, left, left]))
         out.append(k)
         left -= k
     return out
@@ -108,10 +109,22 @@ class Job:
 
 
 def to_caller(ty, x):
-    """the caller value (as the harness wants it) whose codec value is x (s32, low bits clear)"""
+    """the caller value (as the harness wants it: the bit pattern of the host value) whose codec value is x (s32, low bits clear);
+    float / double callers get k / 32768 for the 16-bit value k = x >> 16 (exact in both types; alac_write_f / alac_write_d scale it back
+    with psf->norm_float, the double path through 0x7FFFFFFF -- not lossless, so C01's round-trip clause is not asked of these jobs)"""
     if ty == "s32":
         return x & M32
-    return (x >> 16) & 0xFFFF
+    if ty == "s16":
+        return (x >> 16) & 0xFFFF
+    k = (x >> 16) & 0xFFFF
+    k = k - 65536 if k >= 32768 else k
+    import struct
+    if ty == "f32":
+        return int.from_bytes(struct.pack(">f", k / 32768.0), "big")
+    return int.from_bytes(struct.pack(">d", k / 32768.0), "big")
+
+
+LOSSLESS_TYPES = ("s16", "s32")       # the caller types C01 names for ALAC (integer samples that fit the bit depth)
 
 
 def read_plan(rng, n, ch, ty):
@@ -151,23 +164,32 @@ def make_jobs(ctx, njobs):
         bits, ch = combos[k % len(combos)]
         n = LENGTHS[k % len(LENGTHS)] if rng.random() < 0.8 else rng.randrange(0, 9000)
         directed = None
-        if k < 4:
+        if k < 5:
             # directed: whole packets whose BER bytes fill the pakt chunk exactly (no padding, so the table has no extra zero entry and
             # frames = entries * 4096): 2 x 2 bytes, 4 x 1 byte (all-zero packets are a few bytes), 4 x 3 bytes
             bits, ch, n, directed = [(16, 1, 2 * FPB, "quiet"), (24, 1, 4 * FPB, "zero"), (16, 2, 4 * FPB, "noise"),
-                                      (32, 2, FPB - 1, "noise")][k]       # an uncompressed packet of 32768 bytes: BER 82 80 00, the entry ends in a zero byte
-        if n * ch > 34000:
+                                      (32, 2, FPB - 1, "noise"),       # an uncompressed packet of 32768 bytes: BER 82 80 00, the entry ends in a zero byte
+                                      (16, 1, 13 * FPB + 5, "zero")][k]   # 14 one-byte entries: more than pakt_size / 4, the reader's table has to grow (alac_pakt_append)
+        if n * ch > 34000 and not directed:
             n = rng.choice([0, 1, 2, 100, FPB - 1, FPB, FPB + 1]) if ch <= 8 else 100
         cont = CONTENTS[(k // 3) % len(CONTENTS)] if rng.random() < 0.7 else rng.choice(CONTENTS)
         if directed:
             cont = directed
         ty = "s16" if (bits == 16 and rng.random() < 0.6) or rng.random() < 0.15 else "s32"
-        xs = content(rng, cont, n * ch, 16 if ty == "s16" else bits)
+        if directed is None and k % 6 in (3, 5):
+            # every caller type has its OWN copy of the staging loop (alac_write_s / _i / _f / _d): float and double callers, item and
+            # frame variants, are partition twins like the integer ones
+            ty = "f64" if k % 6 == 3 else "f32"
+            if n < 2:
+                n = rng.choice([100, FPB - 1, FPB + 1, 2 * FPB + 1, rng.randrange(2, 9000)])
+                if n * ch > 34000:
+                    n = rng.choice([100, FPB - 1, FPB + 1])
+        xs = content(rng, cont, n * ch, 16 if ty != "s32" else bits)
         vals = [to_caller(ty, x) for x in xs]
         sr = rng.choice([8000, 44100, 48000, 96000, 1, 2 ** 31 - 1, 65537, 11025])
         name = "alac%d-c%d-n%d-%s-%s-%d" % (bits, ch, n, ty, cont, k)
         calls = [(c, rng.choice("if")) for c in split(rng, n)]
-        a = Job(name, bits, ch, sr, n, ty, cont, vals, calls, read_plan(rng, n, ch, ty))
+        a = Job(name, bits, ch, sr, n, ty, cont, vals, calls, read_plan(rng, n, ch, ty if ty in LOSSLESS_TYPES else "s32"))
         a.xs = xs
         if len(calls) <= 1:
             calls2 = [(c, rng.choice("if")) for c in split(rng, n)] if n > 1 else [(n, "i" if calls and calls[0][1] == "f" else "f")] if n else []
@@ -330,7 +352,7 @@ def analyse(job, impl, fv, model):
         P("pred", "crash", "the implementation died: %s" % next(l for l in impl if l.startswith(("CRASH", "ABORT", "TIMEOUT"))))
         return probs, info
     if len(impl) != len(sl):
-        P("pred", "crash", "transcript has %d lines for %d operations" % (len(impl), len(sl)))
+        P("pred", "crash", "transcript has %d lines for %d operations: %s" % (len(impl), len(sl), " | ".join(l[:60] for l in impl)))
         return probs, info
     nw = len(job.calls)
     if "open=ok" not in impl[0]:
@@ -380,7 +402,7 @@ def analyse(job, impl, fv, model):
         P("pred", "sizes", "; ".join(bad), c + 1)
     info["bytes"] += len(fv.fb)
     # round trip
-    want = ["%08x" % (x & M32) for x in job.xs]
+    want = ["%08x" % (x & M32) for x in job.xs] if job.ty in LOSSLESS_TYPES else []
     if ref[:len(want)] != want or len(ref) < len(want):
         d = next((i for i in range(min(len(ref), len(want))) if ref[i] != want[i]), min(len(ref), len(want)))
         P("pred", "roundtrip", "item %d (frame %d, channel %d) written as %s reads back as %s" % (d, d // job.ch, d % job.ch, want[d] if d < len(want) else "-", ref[d] if d < len(ref) else "(missing)"), c + 4)
@@ -472,6 +494,146 @@ def analyse(job, impl, fv, model):
     return probs, info
 
 
+
+# ---------------------------------------------------------------------------------------------------
+# packet sizes steered THROUGH the boundaries of the BER coding of the packet table (C01 / C04)
+# ---------------------------------------------------------------------------------------------------
+# alac_pakt_encode writes every packet size as a base-128 integer of 1..4 bytes; the cases split at 128, 16384, 2^21 (and 2^28: give up).
+# A packet is at most 4096 frames x 8 channels x 4 bytes + a few header bytes, so real files reach the first two splits only (the other two
+# are tied through `sfmodel alac pakt-enc` and the theorems of SfProps/C04Alac.lean).  The campaign does not trust any formula for the
+# size of a packet: it MEASURES the size of one chosen packet as a function of one steering variable (the number of frames of the final
+# packet, or the length of a burst inside an otherwise silent full packet that has another packet behind it), brackets each target and
+# runs complete jobs (write, close, every byte against the model, re-open, read back) on every value of the window round the crossing.
+
+BOUNDARY_PROPS = ("C01", "C04")
+BER_SPLITS = [128, 16384]
+FINE = 64
+BER_TARGETS = [127, 128, 129, 16383, 16384, 16385]
+
+
+class Stream:
+    """one fixed sample stream; `job (x)` is the file whose steered packet depends on x only"""
+    def __init__(self, rng, sid, bits, ch, cont, kind, lead, big):
+        self.sid, self.bits, self.ch, self.cont, self.kind, self.lead, self.big = sid, bits, ch, cont, kind, lead, big
+        self.ty = "s16" if bits == 16 else "s32"
+        self.body = content(rng, cont, (FPB - 1) * ch, bits)
+        self.tail = content(rng, "quiet", 50 * ch, bits)
+        self.rng = rng
+        # compressible content: a second, finer steering dimension -- the last y < FINE items of the x frames are silenced (a few bits per
+        # item), z = x * FINE - y; packets stored uncompressed have a size that depends on x alone
+        self.fine = FINE if cont != "noise" else 1
+        self.sizes = {}                     # z -> measured size of the steered packet
+        self.tried = set()
+        self.made = set()
+
+    def index(self):
+        return 1 if (self.kind == "prefix" and self.lead) else 0
+
+    def job(self, z, tag):
+        ch = self.ch
+        x = -(-z // self.fine)
+        y = min(x * self.fine - z, x * ch)
+        self.tried.add(z)
+        if (x, y) in self.made:             # (small x: y is capped, several z are the same file)
+            return None
+        self.made.add((x, y))
+        body = self.body[:x * ch - y] + [0] * y
+        if self.kind == "prefix":           # [4096 silent frames] + the first x frames of the stream: the steered packet is the final one
+            xs = [0] * (self.lead * ch) + body
+        else:                               # burst: x frames of the stream, silence up to 4096, then 50 more frames (a packet BEHIND the steered one)
+            xs = body + [0] * ((FPB - x) * ch) + self.tail
+        n = len(xs) // ch
+        vals = [to_caller(self.ty, v) for v in xs]
+        calls = [(c, self.rng.choice("if")) for c in (split(self.rng, n) if tag == "w" else [n])]
+        j = Job("alacber-%s-x%d-y%d-%s" % (self.sid, x, y, tag), self.bits, ch, 44100, n, self.ty, self.cont + "/" + self.kind, vals, calls, [])
+        j.xs = xs
+        j.stream, j.x = self, z
+        self.tried.add(z)
+        return j
+
+
+def boundary_streams(rng):
+    S = []
+    small = [(16, 1, "noise", "prefix", 0), (16, 2, "noise", "prefix", FPB), (20, 1, "noise", "prefix", 0), (24, 1, "noise", "prefix", 0),
+             (32, 1, "noise", "prefix", FPB), (16, 3, "noise", "prefix", 0), (20, 2, "noise", "prefix", 0), (16, 1, "quiet", "prefix", 0),
+             (16, 2, "ramp", "prefix", 0), (24, 2, "quiet", "prefix", FPB), (16, 1, "noise", "burst", 0), (24, 2, "quiet", "burst", 0),
+             (32, 3, "quiet", "burst", 0)]
+    big = [(16, 2, "noise", "prefix", 0), (20, 2, "noise", "prefix", 0), (32, 1, "noise", "prefix", FPB), (24, 5, "quiet", "prefix", 0),
+           (16, 8, "quiet", "prefix", 0), (32, 4, "quiet", "burst", 0), (16, 3, "noise", "burst", 0)]
+    for i, t in enumerate(small):
+        S.append(Stream(rng, "s%d-%d-%d-%s-%s" % (i, t[0], t[1], t[2], t[3]), *t, big=False))
+    for i, t in enumerate(big):
+        S.append(Stream(rng, "b%d-%d-%d-%s-%s" % (i, t[0], t[1], t[2], t[3]), *t, big=True))
+    return S
+
+
+def measure(jobs, impl):
+    for j in jobs:
+        hx = dump_hex(impl.get(j.name, []))
+        fv = FileView(hx) if hx else None
+        if fv and fv.ok and len(fv.sizes) > j.stream.index():
+            j.stream.sizes[j.x] = fv.sizes[j.stream.index()]
+        elif fv and fv.ok:
+            j.stream.sizes[j.x] = 0         # the table ends before the steered packet (what a mis-coded size looks like): judged by `analyse`
+
+
+def crossing(st, T):
+    """the smallest measured x whose packet is >= T and the largest whose packet is < T -> the values of x to try next"""
+    pts = sorted(st.sizes.items())
+    lo = max([x for x, s in pts if 0 < s < T], default=None)
+    hi = min([x for x, s in pts if s >= T and (lo is None or x > lo)], default=None)
+    if lo is None or hi is None:
+        return []
+    if hi - lo <= 1:
+        return []
+    a, b = st.sizes[lo], st.sizes[hi]
+    est = lo + (T - a) * (hi - lo) // max(b - a, 1)
+    est = min(max(est, lo + 1), hi - 1)
+    return [x for x in range(est - 2, est + 3) if lo < x < hi and x not in st.tried]
+
+
+def boundary_campaign(ctx):
+    rng = ctx.rng
+    streams = boundary_streams(rng)
+    jobs, hs, impl = [], {}, {}
+    ladder_small = [2, 8, 24, 48, 96, 200, 400]
+    ladder_big = [256, 1024, 2048, 3072, FPB - 1]
+    first = [j for j in (st.job(x * st.fine, "p") for st in streams for x in (ladder_big if st.big else ladder_small)) if j]
+    rounds = [first]
+    for rnd in range(7):
+        cur = rounds[-1]
+        if not cur:
+            break
+        h, im = run_harness(ctx, cur)
+        hs.update(h)
+        impl.update(im)
+        jobs += cur
+        measure(cur, im)
+        nxt = []
+        for st in streams:
+            want = set()
+            for T in ([16383, 16384, 16385, 16386] if st.big else [127, 128, 129, 130]):
+                want.update(crossing(st, T))
+            nxt += [j for j in (st.job(x, "w") for x in sorted(want)) if j]
+        rounds.append(nxt)
+    hit = collections.Counter()
+    per_split = collections.Counter()
+    for st in streams:
+        for x, s in st.sizes.items():
+            if s in BER_TARGETS:
+                hit[s] += 1
+                ctx.distinct.add("alac:ber:%d:%s" % (s, st.kind))
+        for B in BER_SPLITS:
+            ss = set(st.sizes.values())
+            if any(0 < s < B for s in ss) and any(s >= B for s in ss):
+                per_split[B] += 1
+    bstats = {"streams": len(streams), "jobs": len(jobs), "rounds": len([r for r in rounds if r]),
+              "packets_of_exactly": {str(t): hit[t] for t in BER_TARGETS},
+              "streams_crossing_split": {str(b): per_split[b] for b in BER_SPLITS},
+              "distinct_steered_sizes": len(set(s for st in streams for s in st.sizes.values()))}
+    return jobs, hs, impl, bstats
+
+
 def ber(v):
     out = [v & 0x7F]
     v >>= 7
@@ -516,8 +678,8 @@ def pakt_cases(ctx, rng, n=40):
     return probs, len(exp) * 2 + 1
 
 
-def campaign(ctx, njobs):
-    jobs = make_jobs(ctx, njobs)
+def run_harness(ctx, jobs):
+    """the harness scripts of the jobs -> (scripts by name, transcripts by name)"""
     hs = {j.name: j.harness_script() for j in jobs}
     # one private TMPDIR per harness process: alac.c spools the packets through <TMPDIR>/<two pseudo-random numbers>-alac.tmp opened with
     # fopen "wb+" (no O_EXCL), the numbers are seeded from the wall clock, and other checks write ALAC files at the same time -- two
@@ -533,6 +695,18 @@ def campaign(ctx, njobs):
     finally:
         for d in dirs:
             shutil.rmtree(d, ignore_errors=True)
+    return hs, impl
+
+
+def campaign(ctx, njobs, prop=None):
+    jobs = make_jobs(ctx, njobs)
+    hs, impl = run_harness(ctx, jobs)
+    bstats = {}
+    if prop in BOUNDARY_PROPS:
+        bjobs, bhs, bimpl, bstats = boundary_campaign(ctx)
+        jobs += bjobs
+        hs.update(bhs)
+        impl.update(bimpl)
     views, ms = {}, []
     for j in jobs:
         il = impl.get(j.name, [])
@@ -580,12 +754,14 @@ def campaign(ctx, njobs):
             probs.append(pr)
     pp, npk = pakt_cases(ctx, ctx.rng)
     stats["pakt_lines"] = npk
+    if bstats:
+        stats["boundary"] = bstats
     return jobs, hs, probs, stats, pp
 
 
 def run(ctx, prop, njobs):
     """called from the property's run(): reports violations; returns True if a failing input was reported"""
-    jobs, hs, probs, stats, pp = campaign(ctx, njobs)
+    jobs, hs, probs, stats, pp = campaign(ctx, njobs, prop)
     ctx.count(stats["ops"] + stats["pakt_lines"])
     ctx.coverage["traces_validated_against_impl"] += stats["jobs"]
     corr = [p for p in probs if p.kind == "corr"]
